@@ -215,6 +215,8 @@ pub struct Cw1Scen {
     seed: u64,
     /// `cw1skwide`: pool of 40 (C20)
     wide: bool,
+    /// generator (wide): 0 = allowance-heavy trace, 1 = permission-heavy trace
+    mode: u64,
 }
 
 pub struct WlScen;
@@ -238,7 +240,7 @@ impl SkScen {
 
 impl Cw1Scen {
     fn make(sub: bool) -> Self {
-        Cw1Scen { sub, deps: new_deps(), env: mock_env(), pool: vec![], inited: false, seed: 0, wide: false }
+        Cw1Scen { sub, deps: new_deps(), env: mock_env(), pool: vec![], inited: false, seed: 0, wide: false, mode: 0 }
     }
 
     fn name(&self) -> &'static str {
@@ -651,7 +653,15 @@ impl Cw1Scen {
         let snd = rng.pick(&admins).clone();
         let h = self.env.block.height;
         let t = self.env.block.time.nanos();
-        match rng.below(10) {
+        // allowance-heavy trace: 60 % grants, 10 % permissions; permission-heavy trace: the other way round
+        let k = match (rng.below(10), self.mode) {
+            (x, 0) if x < 6 => 0,
+            (6, 0) => 4,
+            (0, _) => 0,
+            (x, _) if x < 7 => 4,
+            (x, _) => x,
+        };
+        match k {
             0..=3 => {
                 // mostly a subkey that has no stored allowance yet
                 let fresh: Vec<usize> = (0..sorted.len()).filter(|i| self.raw_allowance(&sorted[*i]).is_none()).collect();
@@ -746,6 +756,7 @@ impl Scenario for Cw1Scen {
     fn gen_op(&mut self, rng: &mut Rng, _step: usize) -> String {
         if !self.inited && self.wide {
             // few admins (an admin cannot be its own subkey), mostly mutable
+            self.mode = rng.below(2);
             let n = 1 + rng.below(2) as usize;
             let admins: Vec<String> = (0..n).map(|i| format!("+{}", self.pool[i])).collect();
             return format!("inst admins={} mutable={}", admins.join(","), rng.chance(9, 10));
